@@ -10,6 +10,7 @@ CONSTANTS
   MaxBatch = 3
   MaxStr = 7
   MaxRep = 24
+  Ends = {"tpast", "none", "future"}
   Pick <- PickAll
 INVARIANTS KVLaws BatchLaws StrLaws
 CHECK_DEADLOCK FALSE
